@@ -58,10 +58,10 @@ func (l *LoopOp) Do(ctx ActionContext) (err error) {
 			return err
 		}
 		if next {
-			if err = l.doAction(ctx, l.PostAction); err != nil {
+			if err = l.Action.Do(ctx); err != nil {
 				return err
 			}
-			if err = l.Action.Do(ctx); err != nil {
+			if err = l.doAction(ctx, l.PostAction); err != nil {
 				return err
 			}
 		} else {
